@@ -55,7 +55,7 @@ type World struct {
 	Renamed     []string
 	aliased     map[*Func]bool
 	aliasShort  map[string]string // new short name -> pinned short name
-	Inlined     []string // helper functions substituted at their call sites before analysis
+	Inlined     []string          // helper functions substituted at their call sites before analysis
 	InlineNotes []string
 }
 
@@ -461,7 +461,10 @@ func (f *Func) mayReturn(call *ast.CallExpr) bool {
 var _ = cfg.New
 
 func fnName(fn *types.Func) string {
-	if a, ok := funcAlias[fn]; ok {
+	funcAliasMu.RLock()
+	a, ok := funcAlias[fn]
+	funcAliasMu.RUnlock()
+	if ok {
 		return a
 	}
 	return fn.Name()
